@@ -119,7 +119,7 @@ func init() {
 				nodeIdx = w.cursor
 				k = w.decide(make([]T, n), false, "choose:"+name)
 			}
-			w.vector = append(w.vector, vecEntry{Name: name, node: nodeIdx, Val: uint64(k)})
+			w.vector = append(w.vector, VecEntry{Name: name, node: nodeIdx, Val: uint64(k)})
 			return w.tb.Const(64, uint64(k))
 		},
 		"vhAssume": func(fr *frame, a []value) value { fr.w.assume(a[0].(T)); return nil },
@@ -156,6 +156,7 @@ func init() {
 		},
 		"vhReach": func(fr *frame, a []value) value {
 			w := fr.w
+			w.reached = append(w.reached, str(a[0]))
 			if w.live() && w.checkPC() {
 				w.res.Reach[str(a[0])]++
 			} else if w.live() {
